@@ -218,7 +218,36 @@ func history(r *mon.Run, c Case) {
 			model = append(model, modelEntry{bit: bit})
 		}
 	}
+	// an earlier valid entry comes back: as an exact copy (valid), or with only S altered (same A, same message, same
+	// R; invalid). Entries are judged one by one.
+	addRepeat := func(mode string) {
+		it := pool[validPool[rng.IntN(len(validPool))]]
+		o := optsFor(it.c, 2)
+		sig := it.sig
+		bv.AddWithOptions(it.pk, it.msg, sig, o)
+		model = append(model, modelEntry{bit: true})
+		step("Add(valid entry, to be repeated)")
+		for k := 0; k < 1+rng.IntN(2); k++ {
+			s2 := append([]byte{}, sig...)
+			if mode != "valid" && rng.IntN(2) == 0 {
+				sv := ref.FromLE(s2[32:])
+				sv.Add(sv, big.NewInt(int64(1+rng.IntN(50))))
+				sv.Mod(sv, ref.L)
+				copy(s2[32:], ref.LE32(sv))
+			}
+			bit, _ := single(it.pk, it.msg, s2, o)
+			bv.AddWithOptions(it.pk, it.msg, s2, o)
+			r.Eval(s2)
+			r.Hist(fmt.Sprintf("entry/repeat-of-an-earlier-entry/single=%v", bit))
+			step(fmt.Sprintf("Add(repeat of the previous entry, single=%v)", bit))
+			model = append(model, modelEntry{bit: bit})
+		}
+	}
 	add := func(mode string) {
+		if len(validPool) > 0 && rng.IntN(14) == 0 {
+			addRepeat(mode)
+			return
+		}
 		if mode != "valid" && len(validPool) > 0 && rng.IntN(10) == 0 {
 			addCancelling()
 			return
@@ -438,6 +467,33 @@ func cacheProgram(r *mon.Run, c Case) {
 			universe = append(universe, it)
 		}
 	}
+	// look-alikes: decodable keys that agree with a key of the universe on a whole byte range (the first 8, 16, 24
+	// bytes; the last 8, 16, 24 bytes; all but one byte) - a cache that identifies keys by less than all 32 bytes
+	// confuses them. They carry the signature of the key they resemble (so plain verification says no).
+	base := len(universe)
+	for li := 0; li < 6 && base > 0; li++ {
+		src := universe[rng.IntN(base)]
+		for try := 0; try < 40; try++ {
+			lk := append([]byte{}, src.pk...)
+			switch li {
+			case 0, 1, 2: // same first 8/16/24 bytes
+				copy(lk[8*(li+1):], mon.Bytes(rng, 32-8*(li+1)))
+			case 3, 4: // same last 8/16 bytes
+				copy(lk[:32-8*(li-2)], mon.Bytes(rng, 32-8*(li-2)))
+			default: // one byte differs
+				lk[rng.IntN(31)] ^= byte(1 + rng.IntN(255))
+			}
+			if bytes.Equal(lk, src.pk) || !ref.Decode(lk).OK {
+				continue
+			}
+			la := src
+			la.pk = lk
+			la.exp, _ = ed25519.NewExpandedPublicKey(lk)
+			universe = append(universe, la)
+			r.Hist("cache/look-alike-keys")
+			break
+		}
+	}
 	var trace []string
 	fail := func(sig, what string) {
 		t := trace
@@ -448,6 +504,10 @@ func cacheProgram(r *mon.Run, c Case) {
 	}
 	for op := 0; op < 60; op++ {
 		it := universe[rng.IntN(len(universe))]
+		if op%7 == 3 && len(universe) > base {
+			// a look-alike right after the key it resembles was used
+			it = universe[base+rng.IntN(len(universe)-base)]
+		}
 		fl := []int{2, 3, 7, 15, 23, rng.IntN(32)}[rng.IntN(6)]
 		o := optsFor(it.c, fl)
 		pk := it.pk
